@@ -9,6 +9,7 @@ import (
 	"fmt"
 	"reflect"
 	"runtime/debug"
+	"sync"
 )
 
 const (
@@ -78,6 +79,9 @@ type Exec struct {
 	OnPoint func(t *Thread) // optional: called (on the running thread) at every point, before the decision
 
 	mainG gate
+	// join: a REAL happens-before edge from the end of every thread to the harness's read-back of
+	// results (the gates deliberately create none in race builds).
+	join sync.WaitGroup
 }
 
 var active *Exec
@@ -122,6 +126,7 @@ func Run(prefix []int, maxSteps int, onPoint func(*Thread), fns ...func()) *Exec
 		x.threads[i] = t
 	}
 	active = x
+	x.join.Add(len(fns))
 	for i := range fns {
 		go x.threads[i].body(fns[i])
 	}
@@ -130,6 +135,7 @@ func Run(prefix []int, maxSteps int, onPoint func(*Thread), fns ...func()) *Exec
 	active = nil
 	x.cur = nil
 	if !x.Deadlock && !x.Horizon && x.Diverged == "" {
+		x.join.Wait()
 		for i := 0; i < x.n; i++ {
 			x.threads[i].g.close()
 		}
@@ -153,6 +159,7 @@ func (t *Thread) body(fn func()) {
 			}
 		}
 		t.done = true
+		t.x.join.Done()
 		t.x.schedule(t)
 	}()
 	fn()
